@@ -232,8 +232,8 @@ theorem C10_counts_text_chain_group_partial (valid : Str → Bool) (f : F) (hwf 
     `X`); pass 4 rewrites `)n + (` into `) * n + (` and `)n␣*X` into `) * n + X` (its look-ahead
     run `[^+*)\s]*` ends inside the next unit).
     Units may also be joined by an explicit ` + ` (`(OH)2 + Na`, `Na{23} + (OH)2`).
-    Still missing for the full statement: nested groups, a trailing explicit ` * n`, left-nested
-    ASTs of the same text. -/
+    Still missing for the full statement: nested groups, a trailing explicit ` * n`
+    (other AST shapes of the same texts: `C10_preprocess_units_tree_partial`). -/
 theorem C10_preprocess_units_partial (f : F) (hf : f.units) (hs : f.spAll SpeciesShape) :
     preprocess (render f) = renderExplicit f :=
   (preprocess_units f hf hs).1
@@ -248,6 +248,21 @@ theorem C10_counts_text_units_partial (valid : Str → Bool) (f : F) (hwf : f.wf
   have hok : f.spAll (SpeciesOK valid) :=
     spAll_mono (fun s h => speciesOK_of_text valid s (speciesText_of_shape s h.1) h.2) f hs
   exact C10_counts_text_partial valid f hwf hok (preprocess_units f hf hsh).1 (preprocess_units f hf hsh).2
+
+/-- The same for ANY shape of the juxtaposition / ` + ` tree (`F.unitsT`: leaves are units, no two
+    parenthesis-free units meet at a junction), e.g. the left-nested AST `(Ca (OH)2) (H2O)6` of the
+    same text — so within this notation the result does not depend on how the AST is bracketed. -/
+theorem C10_preprocess_units_tree_partial (f : F) (hf : f.unitsT) (hs : f.spAll SpeciesShape) :
+    preprocess (render f) = renderExplicit f :=
+  (preprocess_unitsT f hf hs).1
+
+theorem C10_counts_text_units_tree_partial (valid : Str → Bool) (f : F) (hwf : f.wf = true)
+    (hf : f.unitsT) (hs : f.spAll fun s => SpeciesShape s ∧ valid s = true) :
+    substanceOf valid (render f) = some ((expand f).map fun kn => (kn.1, (kn.2 : Rat))) := by
+  have hsh : f.spAll SpeciesShape := spAll_mono (fun s h => h.1) f hs
+  have hok : f.spAll (SpeciesOK valid) :=
+    spAll_mono (fun s h => speciesOK_of_text valid s (speciesText_of_shape s h.1) h.2) f hs
+  exact C10_counts_text_partial valid f hwf hok (preprocess_unitsT f hf hsh).1 (preprocess_unitsT f hf hsh).2
 
 /-- each species is counted exactly as often as it occurs in the expanded formula, and no
     species is listed twice -/
@@ -462,6 +477,13 @@ example : exPlus.wf = true ∧ exPlus.units ∧ String.ofList (render exPlus) = 
     String.ofList (renderExplicit exPlus) = "Fe + (O + H) * 2 + Na" :=
   ⟨by decide, Or.inr ⟨Or.inl trivial, Or.inr ⟨Or.inr ⟨trivial, trivial⟩, Or.inl trivial, by decide⟩, by decide⟩,
    by decide +kernel, by decide +kernel⟩
+/-- a left-nested AST: `(Ca(OH)2) (H2O)6` -/
+def exTree : F :=
+  .seq 1 (.seq 0 (.sp ['C', 'a']) (.count (.group (.seq 0 (.sp ['O']) (.sp ['H']))) 2))
+    (.count (.group (.seq 0 (.count (.sp ['H']) 2) (.sp ['O']))) 6)
+example : exTree.wf = true ∧ exTree.unitsT ∧ String.ofList (render exTree) = "Ca(OH)2 (H2O)6" :=
+  ⟨by decide, Or.inr ⟨Or.inr ⟨Or.inl trivial, Or.inr ⟨trivial, trivial⟩, by decide⟩,
+    Or.inr ⟨trivial, trivial⟩, by decide⟩, by decide +kernel⟩
 /-- … and evaluating the model pipeline on that text gives the same as the theorem says -/
 example : substanceOf (fun _ => true) (render exUnits) =
     some [(['C', 'a'], 1), (['O'], 8), (['H'], 14), (['C', 'l'], 1)] := by decide +kernel
